@@ -225,3 +225,24 @@ theorem rangeValue_eq_field (m : Msg) (h : AllNib m) (sb eb : Nat)
       simp at hsle ⊢ <;> omega
 
 end Sq
+
+namespace Sq
+open Spec
+
+/-- a sub-range of a field is the corresponding slice of the field's value -/
+theorem field_sub (m : Msg) (sb eb a b : Nat) (h1 : sb ≤ a) (h2 : a ≤ b) (h3 : b ≤ eb)
+    (h4 : eb ≤ 4 * m.length) :
+    field m a b = (field m sb eb / 2 ^ (eb - b)) % 2 ^ (b + 1 - a) := by
+  unfold field
+  generalize natOf m = P
+  have e1 : eb + 1 - sb = (eb - b) + (b + 1 - sb) := by omega
+  rw [e1, Nat.pow_add, Nat.mod_mul_right_div_self, Nat.div_div_eq_div_mul, ← Nat.pow_add]
+  have e2 : 4 * m.length - eb + (eb - b) = 4 * m.length - b := by omega
+  rw [e2]
+  have e3 : b + 1 - sb = (b + 1 - a) + (a - sb) := by omega
+  rw [e3, Nat.pow_add, Nat.mod_mul_right_mod]
+
+theorem field_lt (m : Msg) (sb eb : Nat) : field m sb eb < 2 ^ (eb + 1 - sb) :=
+  Nat.mod_lt _ (Nat.pow_pos (by decide))
+
+end Sq
